@@ -79,7 +79,9 @@ def run(ctx, chk):
     chk.floor("client functions analysed", 4, 4)
 
 
-def refuse_region_ok(chk, f, rule, inst, start_bb, err_agg, traffic):
+def refuse_region_ok(chk, f, rule, inst, start_bb, err_agg, traffic, error_built_before=False):
+    """error_built_before: the refusal error was constructed before the test (e.g. by the closure of
+    `ok_or_else(..)?`) and is only handed on inside the region."""
     reach = f.reach_from(start_bb)
     bad_traffic = [bb for bb, t, k in traffic if bb in reach]
     chk.require(not bad_traffic, rule + "/no-traffic", inst,
@@ -99,8 +101,10 @@ def refuse_region_ok(chk, f, rule, inst, start_bb, err_agg, traffic):
 
     def is_refusal(e):
         errs = [x for x in ps.walk(e) if x[0] == "agg" and str(x[1]).endswith("Result::Err")]
-        named = [x for x in ps.walk(e) if x[0] == "agg" and x[1] == err_agg]
+        named = [x for x in ps.walk(e) if x[0] == "agg" and x[1] == err_agg] or ps.closure_builds(f.b.crate, e, err_agg)
         oks = e[0] == "agg" and str(e[1]).endswith("Result::Ok")
+        if error_built_before and not oks and e[0] == "call" and e[1].endswith("FromResidual::from_residual"):
+            return True
         return bool(errs) and bool(named) and not oks
     ok = rets and all(is_refusal(e) for e in rets)
     chk.require(ok, rule + "/error", inst,
@@ -172,7 +176,8 @@ def begin(chk, crate):
                 "C07-c/key", "begin_transaction", "the map key is %s, not the caller's token" % show(key)[:100],
                 "key = token", f.sp(ibb))
     # value: resolve a multiply assigned variable through its definitions
-    val = f.ex.operand(it["args"][2])
+    from discharge import unq
+    val = unq(f.ex.operand(it["args"][2]))          # `x?` / `x.ok_or(..)?` carry the value of x
     vals = expand_var(f, val)
     streams = [t for bb, t in f.stream_calls() if f.seq_of(t) == "zvt::sequences::Reservation"]
     good = bool(vals)
@@ -220,13 +225,31 @@ def expand_var(f, e, depth=0):
             rv = f.ex.rvalue(d[3]["rv"])
             if rv[0] == "agg" and rv[1].endswith("Option::None"):
                 continue
+            if rv[0] == "call" and rv[1] == "core::option::Option::<T>::or" and len(rv[2]) == 2:
+                # `acc = new.or(acc)` == conditional overwrite; `acc.or(new)` keeps the first value (not accepted)
+                new_v, old_v = strip_ref(rv[2][0]), strip_ref(rv[2][1])
+                if old_v[0] == "var" and old_v[2] == base[2] and not (new_v[0] == "var" and new_v[2] == base[2]):
+                    out.extend(expand_var(f, new_v, depth + 1))
+                    continue
             if rv[0] == "agg" and rv[1].endswith("Option::Some") and "@Some" in proj:
                 inner = rv[2][0]
                 out.extend(expand_var(f, inner, depth + 1))
             else:
                 out.extend(expand_var(f, rv, depth + 1))
         elif d[2] == "call":
-            out.append(f.call_expr(d[3], d[0]))
+            ce = f.call_expr(d[3], d[0])
+            # `acc = new.or(acc)`: keep the previous value only when the new reply carries none - the same as the
+            # conditional overwrite.  (`acc.or(new)` keeps the FIRST value and is not accepted.)
+            if ce[1] == "core::option::Option::<T>::or" and len(ce[2]) == 2:
+                new_v, old_v = strip_ref(ce[2][0]), strip_ref(ce[2][1])
+                if old_v[0] == "var" and old_v[2] == base[2] and not (new_v[0] == "var" and new_v[2] == base[2]):
+                    if "@Some" in proj:
+                        out.extend(expand_var(f, ("proj", new_v, ("@Some",) + tuple(p_ for p_ in proj if p_ != "@Some")[0:]), depth + 1)
+                                   if False else expand_var(f, new_v, depth + 1))
+                    else:
+                        out.extend(expand_var(f, new_v, depth + 1))
+                    continue
+            out.append(ce)
     return out
 
 
@@ -253,6 +276,7 @@ def close(chk, crate, name):
         return any(x[0] == "call" and x[1] == HM + "remove" for x in walk(e))
     none_edges = []
     some_edges = []
+    error_before = False
     for i in sorted(f.reach):
         t = f.b.blocks[i]["term"]
         if t["t"] != "switch":
@@ -269,6 +293,30 @@ def close(chk, crate, name):
             # `match` lists both variants; `let Some(x) = .. else` / `if let` list one and use the fall-through
             none_edges.append((i, ed[0] if 0 in ed else ed["else"]))
             some_edges.append((i, ed[1] if 1 in ed else ed["else"]))
+        elif e[0] == "discr" and strip_ref(e[1])[0] == "call" and strip_ref(e[1])[1] == "core::ops::try_trait::Try::branch":
+            # `remove(token).ok_or(..)?` / `.ok_or_else(..)?`: Continue (0) = known token, Break (1) = unknown
+            arg = strip_ref(strip_ref(e[1])[2][0])
+            if arg[0] == "call" and arg[1] in ("core::option::Option::<T>::ok_or", "core::option::Option::<T>::ok_or_else") and \
+                    strip_ref(arg[2][0])[0] == "call" and strip_ref(arg[2][0])[1] == HM + "remove":
+                none_edges.append((i, ed[1] if 1 in ed else ed["else"]))
+                some_edges.append((i, ed[0] if 0 in ed else ed["else"]))
+                # the error handed on by `?` is the one ok_or / ok_or_else was given
+                if len(arg) > 3 and isinstance(arg[3], int):
+                    ot = f.b.blocks[arg[3]]["term"]
+                    if ot["t"] == "call" and len(ot["args"]) == 2:
+                        dv = f.tr.value(ot["args"][1])
+                        if dv.kind == "agg" and dv.rv.get("kind") == "closure":
+                            cb = f.b.crate.bodies.get(dv.rv.get("n")) if f.b.crate is not None else None
+                            if cb is not None:
+                                for blk_ in cb.blocks:
+                                    for st_ in blk_["stmts"]:
+                                        if st_.get("s") == "assign" and st_["rv"]["r"] == "agg" and st_["rv"].get("kind") == "adt" and \
+                                                "%s::%s" % (st_["rv"]["n"], st_["rv"]["vname"]) == "zvt_feig_terminal::feig::Error::UnknownToken":
+                                            error_before = True
+                        else:
+                            de = f.ex.operand(ot["args"][1])
+                            if f.contains_agg(de, "zvt_feig_terminal::feig::Error::UnknownToken"):
+                                error_before = True
     if not chk.require(len(none_edges) == 1 and none_edges[0][1] is not None, "C07-b/unknown-token-test", name,
                        "the result of the token lookup is not tested exactly once (found %d tests)" % len(none_edges),
                        "", f.sp(rbb)):
@@ -276,7 +324,8 @@ def close(chk, crate, name):
     sbb, ntarget = none_edges[0]
     starget = some_edges[0][1]
     from rules_c07 import refuse_region_ok as rr
-    rr(chk, f, "C07-b/unknown-refusal", name, ntarget, "zvt_feig_terminal::feig::Error::UnknownToken", traffic)
+    rr(chk, f, "C07-b/unknown-refusal", name, ntarget, "zvt_feig_terminal::feig::Error::UnknownToken", traffic,
+       error_built_before=error_before)
     for tb, t, k in traffic:
         chk.require(f.edge_dominates((sbb, starget), tb), "C07-b/known-token-dominates",
                     "%s -> %s" % (name, callee(t).rsplit("::", 1)[-1]),
